@@ -111,6 +111,13 @@ Attenuate(st, m, rt, nz) ==
                            RAdd(RMul(RMul(f(a), f(b)), @[a][b]),
                                 IF a = b /\ (a = i \/ a = i + k) THEN nz ELSE Zero)]]]
 
+\* independent noise nx / np added to the x / p variance of mode m
+AddNoise(st, m, nx, np) ==
+  LET k == Len(st.modes)  i == Pos(st, m)  n == 2 * k
+  IN  [st EXCEPT !.V = [a \in 1 .. n |-> [b \in 1 .. n |->
+                           IF a = b /\ a = i THEN RAdd(@[a][b], nx)
+                           ELSE IF a = b /\ a = i + k THEN RAdd(@[a][b], np) ELSE @[a][b]]]]
+
 \* replace mode m by the single-mode Gaussian state (d, C) uncorrelated with the rest
 SetMode(st, m, d, C) ==
   LET k == Len(st.modes)  i == Pos(st, m)  n == 2 * k
